@@ -173,6 +173,29 @@ theorem C05_extractors_code_key_only (h : Field.scope_classification ∉ CacheKe
 
 example : Field.scope_classification ∉ [Field.code_key] := by decide
 
+/-- the repair that keeps the key and RE-VALIDATES a hit (the stored classification of the called names and the outer names
+    against the new scope): transparent for every history, whatever the split computes -/
+theorem C05_extractors_recheck {V : Type} (F : ExIn → V) (hist : List (Op ExIn Int)) :
+    run (exMemo true F) [] hist = hist.map (cold (exMemo true F)) := by
+  apply C05_memo_history
+  intro i j _ _ hk _ ha
+  obtain ⟨ci, si, oi⟩ := i
+  obtain ⟨cj, sj, oj⟩ := j
+  simp only [exMemo, Bool.not_true, Bool.false_or, Bool.and_eq_true, decide_eq_true_eq] at hk ha ⊢
+  obtain ⟨h1, h2⟩ := ha
+  subst hk; subst h1; subst h2
+  rfl
+
+/-- without the re-validation the same two-call history as above goes wrong -/
+theorem C05_extractors_no_recheck :
+    ∃ hist : List (Op ExIn Int), run (exMemo false id) [] hist ≠ hist.map (cold (exMemo false id)) :=
+  ⟨[.call ⟨1, [0], []⟩, .call ⟨1, [1], []⟩], by decide⟩
+
+/-- the code as it is (flag regenerated from the source) -/
+theorem C05_extractors_current {V : Type} (F : ExIn → V) (h : CacheKeys.extractorsRecheck = true) (hist : List (Op ExIn Int)) :
+    run (exMemo CacheKeys.extractorsRecheck F) [] hist = hist.map (cold (exMemo CacheKeys.extractorsRecheck F)) := by
+  rw [h]; exact C05_extractors_recheck F hist
+
 /-! ### `Database.insert` -/
 
 /-- the flat key `(table,) + columns [+ (returning,)]` lets two different statements meet:
@@ -278,23 +301,21 @@ theorem C05_translator_needs_recheck :
   ⟨⟨[7], fun _ => some 1, true⟩, ⟨[7], fun _ => some 2, true⟩, rfl, by simp [trCompute]⟩
 
 /-! ### the per-session result cache -/
-namespace Results
-open ResultCache
 
 /-- FULL statement: for every history of modifications, queries (cacheable or not), flushes, commits, rollbacks, bulk
     deletes, `obj.flush()` calls and hooks, every query returns what it returns when the lookup never hits -/
-def C05_results_full (cfg : Cfg) : Prop :=
-  ∀ hist, (run cfg true Sess.init hist).map Out.result = (run cfg false Sess.init hist).map Out.result
+def C05_results_full (cfg : ResultCache.Cfg) : Prop :=
+  ∀ hist, (ResultCache.run cfg true ResultCache.Sess.init hist).map ResultCache.Out.result = (ResultCache.run cfg false ResultCache.Sess.init hist).map ResultCache.Out.result
 
 /-- the result cache is cleared (or the session replaced) at every point where the transaction's database state changes —
     `SessionCache.flush` (taken by the auto-flush of BOTH `_actual_fetch` and `_aggregate` before the lookup), `commit`,
     `rollback`, `Query.delete(bulk=True)` — so lookups after ANY modification history are recomputed … -/
-theorem C05_results (cfg : Cfg) (hist : List Op)
+theorem C05_results (cfg : ResultCache.Cfg) (hist : List ResultCache.Op)
     (h : cfg.objFlushClears = true ∨ ∀ op ∈ hist, op.isObjFlush = false) :
-    (run cfg true Sess.init hist).map Out.result = (run cfg false Sess.init hist).map Out.result :=
-  run_sim cfg hist h Sess.init Sess.init rfl (by intro kv hkv; cases hkv)
+    (ResultCache.run cfg true ResultCache.Sess.init hist).map ResultCache.Out.result = (ResultCache.run cfg false ResultCache.Sess.init hist).map ResultCache.Out.result :=
+  ResultCache.run_sim cfg hist h ResultCache.Sess.init ResultCache.Sess.init rfl (by intro kv hkv; cases hkv)
 
-example : ∀ op ∈ [Op.query 0 true, Op.modify 1, Op.query 0 true, Op.commit, Op.bulkDelete 2, Op.query 0 true], op.isObjFlush = false := by
+example : ∀ op ∈ [ResultCache.Op.query 0 true, ResultCache.Op.modify 1, ResultCache.Op.query 0 true, ResultCache.Op.commit, ResultCache.Op.bulkDelete 2, ResultCache.Op.query 0 true], op.isObjFlush = false := by
   decide
 
 /-- … with ONE gap in the code as it is: `Entity.flush` writes the object and leaves `query_results` alone; a query run inside
@@ -311,26 +332,25 @@ theorem C05_results_repaired : C05_results_full ⟨true⟩ :=
   fun hist => C05_results ⟨true⟩ hist (Or.inl rfl)
 
 /-- the same for the code as it is (the flag is regenerated from the source): full once `Entity.flush` clears the cache -/
-theorem C05_results_current (hist : List Op) (h : CacheKeys.entityFlushClearsResults = true ∨ ∀ op ∈ hist, op.isObjFlush = false) :
-    (run ⟨CacheKeys.entityFlushClearsResults⟩ true Sess.init hist).map Out.result =
-      (run ⟨CacheKeys.entityFlushClearsResults⟩ false Sess.init hist).map Out.result :=
+theorem C05_results_current (hist : List ResultCache.Op) (h : CacheKeys.entityFlushClearsResults = true ∨ ∀ op ∈ hist, op.isObjFlush = false) :
+    (ResultCache.run ⟨CacheKeys.entityFlushClearsResults⟩ true ResultCache.Sess.init hist).map ResultCache.Out.result =
+      (ResultCache.run ⟨CacheKeys.entityFlushClearsResults⟩ false ResultCache.Sess.init hist).map ResultCache.Out.result :=
   C05_results _ hist h
 
 /-- the auto-flush happens before the lookup on both read paths (505d9d7 moved it for aggregates) -/
 theorem C05_flush_before_lookup : CacheKeys.aggregateFlushesBeforeLookup = true ∧ CacheKeys.fetchFlushesBeforeLookup = true := by decide
 
 /-- what a query answers: the result on the database state AFTER the auto-flush of the pending changes -/
-theorem C05_query_sees_pending (cfg : Cfg) (s : Sess) (k : QKey) (c : Bool) (hinv : RInv s) :
-    (ResultCache.step cfg true s (.query k c)).2.result = some (eval k (flush s).db) := by
-  have hfi := flush_rinv hinv
+theorem C05_query_sees_pending (cfg : ResultCache.Cfg) (s : ResultCache.Sess) (k : ResultCache.QKey) (c : Bool) (hinv : ResultCache.RInv s) :
+    (ResultCache.step cfg true s (.query k c)).2.result = some (ResultCache.eval k (ResultCache.flush s).db) := by
+  have hfi := ResultCache.flush_rinv hinv
   simp only [ResultCache.step, if_true]
-  cases hg : tget k (flush s).results with
+  cases hg : tget k (ResultCache.flush s).results with
   | some r =>
     have := hfi _ (tget_mem hg)
     simp only at this
-    simp [Out.result, this]
-  | none => simp [Out.result]
+    simp [ResultCache.Out.result, this]
+  | none => simp [ResultCache.Out.result]
 
-end Results
 
 end PonyVerif.Props.C05
